@@ -22,6 +22,10 @@
  *   xattr <fix> <k=v,k=v|-> ...                         sqfs_xattr_writer begin/add_kv/end per set, flush, reader load,
  *         read_all of every distinct index (<fix> is only looked at by the model)
  *   xsets <fix> <n> <vlen>                              n generated one-pair sets (digest output)
+ *   export <pre> <inum/ref>... <rootinum/rootref>       dir writer with SQFS_DIR_WRITER_CREATE_EXPORT_TABLE: add_entry per pair,
+ *         sqfs_dir_writer_write_export_table, sqfs_read_table
+ *   super <bs> <mtime> <comp> <inodes> <flags> <ids> <rootref> <bytes_used> <id> <xattr> <inode> <dir> <frag> <export>
+ *         sqfs_super_init, fields set, sqfs_super_write, sqfs_super_read
  *   tree <pathhex|t|perm|uid|gid|mtime|xattr|extra>...
  *         fstree_init + fstree_add_generic per node (t: d f l h b c p s; h = hard link, extra = target path hex; l: target
  *         hex; b/c: devno; f: b:st:fi:fo:sz:words or x:st:sz:sp:fi:fo:words = the inode the block processor would have
@@ -759,6 +763,83 @@ static void op_xsets(void)
 }
 
 
+static void op_export(void)
+{
+	sqfs_meta_writer_t *dm;
+	sqfs_dir_writer_t *dw;
+	sqfs_super_t super;
+	size_t pre, i, count;
+	void *out = NULL;
+	int rc;
+	if (ntok < 3) { puts("bad-op"); return; }
+	pre = num(toks[1]);
+	mf_fill(pre);
+	dm = sqfs_meta_writer_create(&memfile, &raw_cmp, SQFS_META_WRITER_KEEP_IN_MEMORY);
+	dw = sqfs_dir_writer_create(dm, SQFS_DIR_WRITER_CREATE_EXPORT_TABLE);
+	sqfs_dir_writer_begin(dw, 0);
+	for (i = 2; i + 1 < ntok; ++i) {
+		char *s = toks[i], *a = field(&s, '/'), *b = field(&s, '/');
+		if (!a || !b) { puts("bad-op"); goto out; }
+		rc = sqfs_dir_writer_add_entry(dw, "x", (sqfs_u32)num(a), num(b), S_IFREG | 0644);
+		if (rc) { printf("add %d\n", -rc); goto out; }
+	}
+	{
+		char *s = toks[ntok - 1], *a = field(&s, '/'), *b = field(&s, '/');
+		if (!a || !b) { puts("bad-op"); goto out; }
+		memset(&super, 0, sizeof(super));
+		rc = sqfs_dir_writer_write_export_table(dw, &memfile, &raw_cmp, (sqfs_u32)num(a), num(b), &super);
+	}
+	if (rc) { printf("err %d\n", -rc); goto out; }
+	count = (mf_used - super.export_table_start) ? 0 : 0;
+	printf("start=%llu file=", (unsigned long long)super.export_table_start);
+	hex_print(stdout, mf_data + pre, mf_used - pre);
+	/* number of entries: the first block's header tells the table size only for one block; recompute from the stream */
+	{
+		unsigned char *st = malloc(mf_used + 1);
+		size_t save = mf_used, n;
+		mf_used = super.export_table_start; n = strip_headers(pre, st); mf_used = save;
+		count = n / 8; free(st);
+	}
+	rc = sqfs_read_table(&memfile, &raw_unc, 8 * count, super.export_table_start, pre, super.export_table_start, &out);
+	fputs(" rd ", stdout);
+	if (rc) printf("%d", -rc);
+	else {
+		fputs("0 ", stdout);
+		if (!count) putchar('-');
+		for (i = 0; i < count; ++i) { sqfs_u64 v; memcpy(&v, (char *)out + 8 * i, 8); printf("%s%llu", i ? "," : "", (unsigned long long)v); }
+	}
+	putchar('\n');
+	free(out);
+out:
+	sqfs_drop(dw); sqfs_drop(dm);
+}
+
+static void op_super(void)
+{
+	sqfs_super_t s, r;
+	int rc;
+	if (ntok != 15) { puts("bad-op"); return; }
+	rc = sqfs_super_init(&s, num(toks[1]), (sqfs_u32)num(toks[2]), (SQFS_COMPRESSOR)num(toks[3]));
+	printf("init %d", -rc);
+	if (rc) { putchar('\n'); return; }
+	s.inode_count = num(toks[4]); s.flags = num(toks[5]); s.id_count = num(toks[6]); s.root_inode_ref = num(toks[7]);
+	s.bytes_used = num(toks[8]); s.id_table_start = num(toks[9]); s.xattr_id_table_start = num(toks[10]);
+	s.inode_table_start = num(toks[11]); s.directory_table_start = num(toks[12]); s.fragment_table_start = num(toks[13]);
+	s.export_table_start = num(toks[14]);
+	mf_used = 0;
+	rc = sqfs_super_write(&s, &memfile);
+	fputs(" bytes=", stdout); hex_print(stdout, mf_data, mf_used);
+	memset(&r, 0, sizeof(r));
+	rc = sqfs_super_read(&r, &memfile);
+	printf(" rd %d", -rc);
+	if (!rc) printf(" %u %u %u %u %u %u %u %u %u %u %u %llu %llu %llu %llu %llu %llu %llu %llu", r.magic, r.inode_count,
+		r.modification_time, r.block_size, r.fragment_entry_count, r.compression_id, r.block_log, r.flags, r.id_count,
+		r.version_major, r.version_minor, (unsigned long long)r.root_inode_ref, (unsigned long long)r.bytes_used,
+		(unsigned long long)r.id_table_start, (unsigned long long)r.xattr_id_table_start, (unsigned long long)r.inode_table_start,
+		(unsigned long long)r.directory_table_start, (unsigned long long)r.fragment_table_start, (unsigned long long)r.export_table_start);
+	putchar('\n');
+}
+
 /* --- tree --- */
 static sqfs_inode_generic_t *file_inode_from_spec(char *spec)
 {
@@ -926,6 +1007,8 @@ int main(void)
 		else if (!strcmp(toks[0], "xattr")) op_xattr();
 		else if (!strcmp(toks[0], "xsets")) op_xsets();
 		else if (!strcmp(toks[0], "tree")) op_tree();
+		else if (!strcmp(toks[0], "export")) op_export();
+		else if (!strcmp(toks[0], "super")) op_super();
 		else puts("bad-op");
 		fflush(stdout);
 	}
